@@ -75,7 +75,7 @@ def hide_by_metadata(rng, t: Tree, kinds: typing.Dict[str, str]) -> typing.Set[s
             kinds.setdefault(".cap", "dir")
         hidden.add(n)
     dirs = [n for n in kinds if not n.startswith(".") and kinds[n] == "dir"]
-    if dirs and rng.random() < 0.6:
+    if dirs and rng.random() < 0.9:
         # a directory is naturally addressed with a trailing slash
         n = rng.choice(dirs)
         blocks.append("Path=./%s/\nType=X\n" % n)
